@@ -16,6 +16,7 @@ import Driver.Decomp
 import Driver.SsbsText
 import Driver.DecompSw
 import Driver.DecompLp
+import Driver.DecompWr
 open Lean Drv
 
 /-- dispatch on the prefix of "op" -/
@@ -40,6 +41,7 @@ def dispatch (j : Json) : R Json := do
   | "ssbstext" => SsbsTextD.handle op j
   | "decompsw" => DecompSwD.handle op j
   | "decomplp" => DecompLpD.handle op j
+  | "decompwr" => DecompWrD.handle op j
   | _ => throw s!"unknown op {op}"
 
 partial def loop (h : IO.FS.Stream) (out : IO.FS.Stream) : IO Unit := do
